@@ -100,8 +100,61 @@ def server_side(rng, source, case, M, ms):
     case["server"] = {"kind": "raw", "raw": resp, "close": source in ("resp-partial-eof", "resp-close") or rng.random() < 0.3}
 
 
+def gen_body_error_case(rng, idx):
+    """Malformed chunked request body sent while the request is being streamed and an early-answering origin's response is
+    already in flight to (or completely relayed to) the client.  Any own page must still be a correctly framed response in
+    the client-bound byte stream: never inside another response, never a second final response for the same request."""
+    mode = rng.choice(MODES)
+    n = 1000 + rng.randrange(9000)
+    m = marker(rng, n)
+    M = mb(m).replace(b" ", b"").replace(b"\n", b"")
+    case = {"mode": mode, "source": "req-body-bad-during-response", "n": n, "marker": m, "server": None, "open_error": None, "options": {}, "via": False, "reflect": None, "feats": set()}
+    reqs = []
+    if rng.random() < 0.25:
+        reqs.append(valid_request(rng, 0, mode, method=rng.choice(["GET", "POST"])))
+    tag = b"t%d-%06x" % (len(reqs), rng.getrandbits(24))
+    target = (b"http://example.com/" + tag) if mode == "regular" else b"/" + tag
+    head = rng.choice([b"POST", b"PUT"]) + b" " + target + b" HTTP/1.1\r\nHost: example.com\r\nTransfer-Encoding: chunked\r\nX-Marker: " + M + b"\r\n\r\n"
+    good = b"".join(b"%x\r\n%s\r\n" % (len(c), c) for c in [b"hello", b"world-" + tag][: rng.choice([1, 2])])
+    bad_kind = rng.choice(["size-line", "size-line", "overrun", "trailer", "size-negative"])
+    bad = {
+        "size-line": M + b"\r\nabc\r\n0\r\n\r\n",
+        "overrun": b"3\r\nabcdef\r\n0\r\n\r\n",
+        "trailer": b"0\r\n" + M + b"\r\n\r\n",
+        "size-negative": b"-5\r\nhello\r\n0\r\n\r\n",
+    }[bad_kind]
+    answer_kind = rng.choice(["partial-cl", "partial-cl", "partial-chunked", "complete-413", "complete-200"])
+    xt = b"x-tag: " + tag + b"\r\n"
+    resp = {
+        "partial-cl": b"HTTP/1.1 200 OK\r\n" + xt + b"Content-Length: 1000\r\n\r\n" + b"p" * rng.randint(1, 300),
+        "partial-chunked": b"HTTP/1.1 200 OK\r\n" + xt + b"Transfer-Encoding: chunked\r\n\r\n" + b"a\r\n0123456789\r\n" * rng.randint(1, 3),
+        "complete-413": b"HTTP/1.1 413 Payload Too Large\r\n" + xt + b"Content-Length: 9\r\n\r\ntoo large",
+        "complete-200": b"HTTP/1.1 200 OK\r\n" + xt + b"Content-Length: 2\r\n\r\nok",
+    }[answer_kind]
+    case["server"] = {"kind": "raw", "raw": resp, "close": False, "early": True}
+    # request (and response) streaming: by option or by addon
+    if rng.random() < 0.5:
+        case["options"]["stream_large_bodies"] = "1"
+    else:
+        case["stream_addon"] = True
+    raw = head + good + bad
+    reqs.append({"tag": tag, "method": head.split(b" ")[0].decode(), "raw": raw})
+    case["reqs"] = reqs
+    pre_len = sum(len(q["raw"]) for q in reqs[:-1])
+    # the malformed part is held back until the early answer has been relayed (sometimes not: then it may arrive first)
+    case["hold_after"] = pre_len + len(head) + len(good) if rng.random() < 0.85 else None
+    case["feats"] |= {"bad:" + bad_kind, "answer:" + answer_kind}
+    case["client_seg"] = rng.choice(["whole", "random", "bytes"])
+    case["server_seg"] = rng.choice(["whole", "random", "bytes"])
+    case["schedule"] = rng.choice(["fifo", "random", "random"])
+    case["validate"] = rng.random() < 0.85
+    return case
+
+
 def gen_case(rng, idx):
     """Returns dict(mode, reqs[{raw, method, tag}], source, marker, server: dict, open_error, options, via, feats)."""
+    if rng.random() < 0.1:
+        return gen_body_error_case(rng, idx)
     mode = rng.choice(MODES)
     n = 1000 + rng.randrange(9000)
     r = rng.random()
